@@ -474,6 +474,37 @@ def rule_r345(prog: Program, col: Collector) -> None:
         okr = bool(rets) and all(r.value[0] == "bin" and r.value[1] == "/" and r.value[3] == ("call", ("global", "numpy.sum"), (r.value[2],), ()) for r in rets)
         col.check(okr, ref.where(), ref.short, "returns x / x.sum() (a probability distribution)", construct=f"normalise:{name}",
                   necessity="every current and average strategy is a probability distribution")
+        # what is divided by its sum is either the fallback or a vector tested, itself, for a zero sum
+        for r in rets if okr else []:
+            def unfold(t, guards=()):
+                if t[0] in ("ifexp", "phi"):
+                    return unfold(t[2], guards + ((t[1], True),)) + unfold(t[3], guards + ((t[1], False),))
+                return [(guards, t)]
+
+            def nonzero_guard(test, pol, v) -> bool:
+                sv = ("call", ("global", "numpy.sum"), (v,), ())
+                zero = test in (("cmp", "==", sv, ("const", 0)), ("cmp", "==", ("const", 0), sv),
+                                ("call", ("global", "numpy.all"), (("cmp", "==", v, ("const", 0)),), ()))
+                nonz = test in (("call", ("global", "numpy.any"), (("cmp", "!=", v, ("const", 0)),), ()), ("cmp", "<", ("const", 0), sv))
+                return (zero and pol is False) or (nonz and pol is True)
+            def core(t):
+                """Strip re-indexing and masks that do not depend on the vector itself (`v[perm] * (perm > -0.5)`): they keep a non-negative vector's
+                sum positive; `v * (v > 0)` (the positive part) is NOT stripped - its sum can vanish although v is non-zero."""
+                while True:
+                    if t[0] == "index" and t[2][0] != "const":
+                        t = t[1]
+                    elif t[0] == "bin" and t[1] == "*" and t[2][0] in ("index", "ifexp", "phi") and not has_subterm(t[3], core(t[2])):
+                        t = t[2]
+                    else:
+                        return t
+            for guards, v in unfold(core(r.value[2])):
+                fallback = is_call_to(v, "numpy.ones")
+                okg = fallback or any(nonzero_guard(t, pol, v) for t, pol in guards)
+                col.check(okg, ref.where(r.node), ref.short,
+                          f"the vector that is normalised ({short(v, 50)}) is the uniform fallback or is itself tested for a zero sum on this path",
+                          construct=f"normalise-unguarded:{name}",
+                          necessity="testing another vector (the raw regrets instead of their positive part, `any != 0` instead of `sum == 0`) lets a vector without "
+                                    "positive entries through: 0/0 gives NaN strategies, which spread to every ancestor's regret and average strategy")
 
     col.rule("R5", "metacoalition ids are generated by combinations for sizes in ascending range(0..limit), limit clipped to the number of coalitions", 3)
     ref = prog.func("regret.metacoalition_ids_by_coalition_size")
